@@ -156,6 +156,8 @@ where
 	C: NodeClient + 'a,
 {
 	let batch_size = 1000;
+	#[cfg(feature = "verif_hooks")]
+	let batch_size = crate::verif::knob("scan.batch_size", batch_size);
 	let start_index_stat = start_index;
 	let mut start_index = start_index;
 	let mut vw = ViewWallet {
@@ -238,6 +240,8 @@ where
 	K: Keychain + 'a,
 {
 	let batch_size = 1000;
+	#[cfg(feature = "verif_hooks")]
+	let batch_size = crate::verif::knob("scan.batch_size", batch_size);
 	let start_index_stat = start_index;
 	let mut start_index = start_index;
 	let mut result_vec: Vec<OutputResult> = vec![];
